@@ -23,7 +23,7 @@ theorem leOf_ltK : leOf ltK = fun (a b : V) => decide (a.key ≤ b.key) := by
   simp only [leOf, ltK]
   by_cases h : a.key ≤ b.key
   · simp [h]
-  · simp [h]
+  · simp [h]; omega
 
 /-- the pipeline model's scan is the scan of the stand-alone merge model -/
 theorem scanMin_eq : ∀ (st : List (Input V)) (i : Nat) (acc : Option (Nat × V)),
@@ -128,8 +128,8 @@ theorem set_eq_self {α : Type} {l : List α} {i : Nat} {a : α} (h : l[i]? = so
   rw [getElem?_set]
   split
   · rename_i hij; subst hij
-    have := (List.getElem?_eq_some_iff.mp h).1
-    simp [this, h]
+    obtain ⟨hlt, _⟩ := List.getElem?_eq_some_iff.mp h
+    rw [if_pos hlt, h]
   · rfl
 
 theorem take_append_map_drop_succ {α : Type} (f : α → α) (l : List α) (i : Nat) (a : α) (h : l[i]? = some a) :
@@ -173,11 +173,11 @@ theorem mergeRefill_ok {F : Nat} (hB : Below F) : ∀ fuel, fuel ≤ F →
         cases res <;> simp only [RefillOK] at ih ⊢
         obtain ⟨hc, st', h1, h2, h3⟩ := ih
         refine ⟨hc, st', h1, h2, ?_⟩
-        rw [h3, take_succ_eq_append_getElem hilt, drop_eq_getElem_cons hilt]
         have : refill1 st[i] = st[i] := by
           rcases hx : st[i] with ⟨a, b⟩
           rw [hx] at hslot; simp only at hslot; subst hslot; rfl
-        simp [this]
+        rw [h3, take_succ_eq_append_getElem hilt, drop_eq_getElem_cons hilt]
+        simp only [List.map_cons, this, List.append_assoc, List.singleton_append]
       | none =>
         have hs : (st.map Prod.fst)[i]? = some none := by rw [getElem?_map, hsti]; simp [hslot]
         rw [hs]
@@ -219,7 +219,7 @@ theorem mergeRefill_ok {F : Nat} (hB : Below F) : ∀ fuel, fuel ≤ F →
           obtain ⟨hc, st', h1', h2', h3'⟩ := ih
           refine ⟨hc, st', h1', h2', ?_⟩
           rw [h3', take_succ_eq_append_getElem hilt, drop_eq_getElem_cons hilt, hsti']
-          simp [refill1]
+          simp only [List.map_cons, refill1, List.append_assoc, List.singleton_append]
 
 /-! ### one emit -/
 
@@ -228,14 +228,14 @@ theorem emitP_merge_eq (fuel : Nat) (ps : PipeList) (opened : Nat) (slots : Opti
       if ps.length = 0 then (.eof, .merge ps opened slots, w)
       else
         match mergeRefill fuel ps 0 (slots.getD (List.replicate ps.length none)) w with
-        | (.val slots1, ps, w) =>
+        | (.val slots1, ps', w') =>
           match Model.Pipe.scanMin 0 slots1 none with
-          | none => (.eof, .merge ps opened (some slots1), w)
-          | some (j, m) => (.val m, .merge ps opened (some (slots1.set j none)), w)
-        | (.eof, ps, w) => (.oof, .merge ps opened (some (slots.getD (List.replicate ps.length none))), w)
-        | (.fail e, ps, w) => (.fail e, .merge ps opened (some (slots.getD (List.replicate ps.length none))), w)
-        | (.panic b, ps, w) => (.panic b, .merge ps opened (some (slots.getD (List.replicate ps.length none))), w)
-        | (.oof, ps, w) => (.oof, .merge ps opened (some (slots.getD (List.replicate ps.length none))), w) := by
+          | none => (.eof, .merge ps' opened (some slots1), w')
+          | some (j, m) => (.val m, .merge ps' opened (some (slots1.set j none)), w')
+        | (.eof, ps', w') => (.oof, .merge ps' opened (some (slots.getD (List.replicate ps.length none))), w')
+        | (.fail e, ps', w') => (.fail e, .merge ps' opened (some (slots.getD (List.replicate ps.length none))), w')
+        | (.panic b, ps', w') => (.panic b, .merge ps' opened (some (slots.getD (List.replicate ps.length none))), w')
+        | (.oof, ps', w') => (.oof, .merge ps' opened (some (slots.getD (List.replicate ps.length none))), w') := by
   cases slots <;> rw [emitP] <;> rfl
 
 theorem map_fst_clear (pre : List (Input V)) (m : V) (r : List V) (post : List (Input V)) :
@@ -248,7 +248,9 @@ theorem emit_merge {fuel : Nat} (hB : Below (fuel+1)) (ps : PipeList) (opened : 
     (hd : Den (.merge ps opened slots) l) (hw : w.Clean) :
     StepOK (emitP (fuel+1) (.merge ps opened slots) w) l := by
   rw [Den] at hd
-  obtain ⟨st, hdl, hs, hsorted, rfl⟩ := hd
+  rcases hd with ⟨hz, rfl⟩ | ⟨st, hdl, hs, hsorted, rfl⟩
+  · rw [emitP_merge_eq, if_pos hz]
+    exact ⟨rfl, hw, by rw [Den]; exact Or.inl ⟨hz, rfl⟩⟩
   have hall := (denList_iff ps _).mp hdl
   have hlen : ps.length = st.length := by have := hall.1; rw [length_toList] at this; simpa using this
   rw [emitP_merge_eq]
@@ -258,7 +260,7 @@ theorem emit_merge {fuel : Nat} (hB : Below (fuel+1)) (ps : PipeList) (opened : 
     subst this
     simp only [StepOK]
     refine ⟨by simp [views], hw, ?_⟩
-    rw [Den]; exact ⟨[], hdl, hs, hsorted, by simp [views]⟩
+    rw [Den]; exact Or.inl ⟨hz, rfl⟩
   · rw [if_neg hz, hs]
     have hr := mergeRefill_ok (hB.mono (Nat.le_succ _)) fuel (Nat.le_refl _) ps st 0 w hall hw
     rcases hre : mergeRefill fuel ps 0 (st.map Prod.fst) w with ⟨res, ps', w'⟩
@@ -274,15 +276,15 @@ theorem emit_merge {fuel : Nat} (hB : Below (fuel+1)) (ps : PipeList) (opened : 
     rw [scanMin_eq]
     rcases merge_step ltK_sw st' hF hS with ⟨hnone, hv⟩ | ⟨pre, m, r, post, hsplit, hscan, hsort, hS'⟩
     · rw [hnone]
-      simp only [StepOK]
+      simp only
       refine ⟨by rw [← hV, hv]; simp, hc, ?_⟩
       rw [Den]
-      exact ⟨st', (denList_iff _ _).mpr hall', rfl, hS, by rw [hv]; simp⟩
+      exact Or.inr ⟨st', (denList_iff _ _).mpr hall', rfl, hS, by rw [hv]; simp⟩
     · rw [hscan]
-      simp only [StepOK]
+      simp only
       refine ⟨_, by rw [← hV]; exact hsort, hc, ?_⟩
       rw [Den]
-      refine ⟨pre ++ (none, r) :: post, (denList_iff _ _).mpr ?_, ?_, hS', rfl⟩
+      refine Or.inr ⟨pre ++ (none, r) :: post, (denList_iff _ _).mpr ?_, ?_, hS', rfl⟩
       · have : (pre ++ (none, r) :: post).map Prod.snd = st'.map Prod.snd := by rw [hsplit]; simp
         rw [this]; exact hall'
       · rw [hsplit]; exact map_fst_clear pre m r post
